@@ -228,7 +228,7 @@ impl SourceCursor {
                     self.index += 1;
                     continue;
                 },
-                ' ' | '|' | '\t' => {
+                ' ' | '|' | '\t' | '\r' => { // (CR: a CRLF line break before '^' continues the length like LF)
                     self.next();
                 },
                 '\n' => { // 改行があっても続く部分に"^"か数値があれば続行
